@@ -3,10 +3,13 @@ package main
 // C01: stanza encode/decode round trip; text never injects XML.
 //
 // One typed description (c01In, JSON) is turned into (a) the real Go value of
-// /repo/stanza and (b) the model's input.  Observed on the implementation:
-// xml.Marshal bytes, the canonical description of xml.Unmarshal of those bytes into
-// a fresh value of the same type, the bytes of a second xml.Marshal.  The model
-// (Model/Codec.v through Corr/RunC01.v) must produce the same three things.
+// /repo/stanza and (b) the model's input.  Observed on the implementation: the
+// DOCUMENT its xml.Marshal bytes denote (read by a neutral reader: resolved names,
+// sorted attributes, exact character data; not the bytes), and the canonical
+// description of xml.Unmarshal into a fresh value of the same type, once of those
+// bytes and once of the same document re-written the way the model's printer writes
+// it.  The model (Model/Codec.v through Corr/RunC01.v) must produce the same: the
+// tree enc v, and the value dec (parse (print (enc v))).
 // Model-free oracle: round trip of the description, byte identity of the second
 // marshal, skeleton invariance under text replacement.  Kind "reflect" cases are
 // oracle-only: every registered type and the stream elements, filled by reflection.
@@ -803,6 +806,7 @@ type c01XT struct {
 	Kids         []*c01XT
 	Raw          bool
 	Text         string
+	Qualified    bool // has an attribute in a namespace (key "namespace local")
 }
 
 // c01ParseTree: independent tokenisation with encoding/xml. ok=false when the bytes use
@@ -858,6 +862,157 @@ func c01ParseTree(b []byte) (*c01XT, bool) {
 		return nil, false
 	}
 	return root, true
+}
+
+// c01ReadDoc: a neutral reader for the implementation's bytes: encoding/xml RAW tokens (no
+// name translation by the decoder), matching of end tags and namespace resolution done here
+// (default namespace and prefixes for elements, prefixes only for attributes; xml: is the XML
+// namespace). Namespace declarations are not attributes of the tree. An attribute in a
+// namespace is keyed "namespace local". ok=false: not one well-formed element.
+func c01ReadDoc(b []byte) (*c01XT, bool) {
+	d := xml.NewDecoder(bytes.NewReader(b))
+	type frame struct {
+		raw xml.Name
+		ns  map[string]string
+		el  *c01XT
+	}
+	var stack []frame
+	var root *c01XT
+	lookup := func(prefix string) (string, bool) {
+		if prefix == "xml" {
+			return "http://www.w3.org/XML/1998/namespace", true
+		}
+		for i := len(stack) - 1; i >= 0; i-- {
+			if v, ok := stack[i].ns[prefix]; ok {
+				return v, true
+			}
+		}
+		return "", prefix == ""
+	}
+	for {
+		before := d.InputOffset()
+		tok, err := d.RawToken()
+		if err != nil {
+			if err.Error() != "EOF" {
+				return nil, false
+			}
+			break
+		}
+		switch t := tok.(type) {
+		case xml.StartElement:
+			fr := frame{raw: t.Name, ns: map[string]string{}}
+			for _, a := range t.Attr {
+				if a.Name.Space == "" && a.Name.Local == "xmlns" {
+					fr.ns[""] = a.Value
+				} else if a.Name.Space == "xmlns" {
+					fr.ns[a.Name.Local] = a.Value
+				}
+			}
+			stack = append(stack, fr)
+			ns, ok := lookup(t.Name.Space)
+			if !ok {
+				return nil, false
+			}
+			n := &c01XT{Elem: true, Space: ns, Local: t.Name.Local}
+			for _, a := range t.Attr {
+				if (a.Name.Space == "" && a.Name.Local == "xmlns") || a.Name.Space == "xmlns" {
+					continue
+				}
+				key := a.Name.Local
+				if a.Name.Space != "" {
+					ans, ok := lookup(a.Name.Space)
+					if !ok {
+						return nil, false
+					}
+					key = ans + " " + key
+					n.Qualified = true
+				}
+				n.Attrs = append(n.Attrs, c01KV{key, a.Value})
+			}
+			stack[len(stack)-1].el = n
+			if len(stack) > 1 {
+				p := stack[len(stack)-2].el
+				p.Kids = append(p.Kids, n)
+			} else if root == nil {
+				root = n
+			} else {
+				return nil, false
+			}
+		case xml.EndElement:
+			if len(stack) == 0 || stack[len(stack)-1].raw != t.Name {
+				return nil, false
+			}
+			stack = stack[:len(stack)-1]
+		case xml.CharData:
+			if len(stack) == 0 {
+				if strings.TrimSpace(string(t)) != "" {
+					return nil, false
+				}
+				continue
+			}
+			raw := b[before:d.InputOffset()]
+			p := stack[len(stack)-1].el
+			p.Kids = append(p.Kids, &c01XT{Raw: bytes.IndexByte(raw, '\n') >= 0, Text: string(t)})
+		case xml.Comment, xml.ProcInst, xml.Directive:
+			// not content
+		}
+	}
+	if root == nil || len(stack) != 0 {
+		return nil, false
+	}
+	return root, true
+}
+
+// c01CanonTreeSx: the document a tree denotes, as compared with the model's enc: resolved
+// name, attributes sorted by name (stable), children in order, character data exact with
+// adjacent runs joined and empty runs dropped; no lexical detail.
+func c01CanonTreeSx(t *c01XT) Sx {
+	if !t.Elem {
+		return L(Z(1), SRunes(t.Text))
+	}
+	attrs := append([]c01KV{}, t.Attrs...)
+	sort.SliceStable(attrs, func(i, j int) bool { return c01RuneLess(attrs[i].K, attrs[j].K) })
+	var kids []Sx
+	text, have := "", false
+	flush := func() {
+		if have && text != "" {
+			kids = append(kids, L(Z(1), SRunes(text)))
+		}
+		text, have = "", false
+	}
+	for _, k := range t.Kids {
+		if !k.Elem {
+			text, have = text+k.Text, true
+			continue
+		}
+		flush()
+		kids = append(kids, c01CanonTreeSx(k))
+	}
+	flush()
+	return L(Z(0), SRunes(t.Space), SRunes(t.Local), c01KVsSx(attrs), LS(kids))
+}
+
+func c01HasQualified(t *c01XT) bool {
+	if t.Qualified {
+		return true
+	}
+	for _, k := range t.Kids {
+		if c01HasQualified(k) {
+			return true
+		}
+	}
+	return false
+}
+
+// order of code-point sequences (the model sorts lists of code points)
+func c01RuneLess(a, b string) bool {
+	ra, rb := []rune(a), []rune(b)
+	for i := 0; i < len(ra) && i < len(rb); i++ {
+		if ra[i] != rb[i] {
+			return ra[i] < rb[i]
+		}
+	}
+	return len(ra) < len(rb)
 }
 
 func c01Esc(s string, nl bool) string {
@@ -1181,19 +1336,34 @@ func (c01) Run(inp interface{}) Sx {
 	if in.Kind == "reflect" || in.Kind == "noise" {
 		return L(Z(0)) // oracle-only case: no model counterpart
 	}
-	v, fresh := c01Build(in)
+	// What is compared with the model is the DOCUMENT the bytes denote and the decoded VALUE,
+	// not the bytes: attribute order, quote style, <a/> versus <a></a>, repeated namespace
+	// declarations and the choice among equivalent escapes are free.
+	v, _ := c01Build(in)
 	b1, err := xml.Marshal(v)
 	if err != nil {
-		return L(SBytes("marshal-error"), SBytes(err.Error()))
+		return L(Z(-4), SBytes(err.Error()))
 	}
-	if err := xml.Unmarshal(b1, fresh); err != nil {
-		return L(SRunes(string(b1)), L(Z(-2)), SBytes(err.Error()))
+	doc, ok := c01ReadDoc(b1)
+	if !ok {
+		return L(Z(-5), SRunes(string(b1)))
 	}
-	b2, err := xml.Marshal(fresh)
-	if err != nil {
-		return L(SRunes(string(b1)), L(Z(-3)), SBytes(err.Error()))
+	decode := func(b []byte) Sx {
+		_, fresh := c01Build(in)
+		if err := xml.Unmarshal(b, fresh); err != nil {
+			return L(Z(-2))
+		}
+		return L(c01Describe(fresh))
 	}
-	return L(SRunes(string(b1)), L(c01Describe(fresh), SRunes(string(b2))))
+	// the library's decoder on its own bytes, and on the same document written the way the
+	// model's printer writes it (decoding must not depend on the spelling either)
+	reprint := b1
+	if !c01HasQualified(doc) { // the model's printer has no prefixes
+		var sb strings.Builder
+		c01PrintTree(doc, &sb)
+		reprint = []byte(sb.String())
+	}
+	return L(c01CanonTreeSx(doc), decode(b1), decode(reprint))
 }
 
 func (c01) Input(inp interface{}) Sx {
@@ -1361,33 +1531,38 @@ func (c01) Oracle(inp interface{}, obs Sx) (string, string) {
 		"smenable": "stanza.SMEnable", "smenabled": "stanza.SMEnabled", "smrequest": "stanza.SMRequest", "smanswer": "stanza.SMAnswer",
 		"smresume": "stanza.SMResume", "smresumed": "stanza.SMResumed", "smfailed": "stanza.SMFailed", "saslauth": "stanza.SASLAuth",
 		"handshake": "stanza.Handshake"}[in.Kind]
-	if len(obs.L) < 2 || obs.L[0].K != "s" {
-		return "marshal failed", "nonroundtrip:" + goName + ":marshal-error"
+	// the property itself, on the implementation alone (nothing here goes through the model)
+	v, fresh := c01Build(in)
+	b1, err := xml.Marshal(v)
+	if err != nil {
+		return "marshal failed: " + err.Error(), "nonroundtrip:" + goName + ":marshal-error"
 	}
-	b1 := obs.L[0]
-	if len(obs.L) == 3 {
-		return "Unmarshal(Marshal v) fails: " + string(bytesOf(obs.L[2])) + " on " + c01Short([]byte(c01RunesToString(b1))), "nonroundtrip:" + goName + ":unmarshal-error"
+	if _, ok := c01ReadDoc(b1); !ok {
+		return fmt.Sprintf("the marshalled bytes are not a well-formed element: %q", c01Short(b1)), "illformed:" + goName
+	}
+	if err := xml.Unmarshal(b1, fresh); err != nil {
+		return "Unmarshal(Marshal v) fails: " + err.Error() + " on " + c01Short(b1), "nonroundtrip:" + goName + ":unmarshal-error"
 	}
 	if in.OutOfDomain {
 		return "", ""
 	}
-	desc, b2 := obs.L[1].L[0], obs.L[1].L[1]
-	v, _ := c01Build(in)
+	desc := c01Describe(fresh)
 	want := c01Describe(v)
 	if d := c01FirstDiff(want, desc, ""); d != "" {
 		f := c01PathName(in.Kind, d)
 		if in.Kind != "message" && in.Kind != "presence" && in.Kind != "iq" {
 			f = c01SmallField(in.Kind, d)
 		}
-		return fmt.Sprintf("describe(Unmarshal(Marshal v)) differs from describe(v) at %s (%s): bytes %q", f, d, c01Short([]byte(c01RunesToString(b1)))), "nonroundtrip:" + goName + ":" + f
+		return fmt.Sprintf("describe(Unmarshal(Marshal v)) differs from describe(v) at %s (%s): bytes %q", f, d, c01Short(b1)), "nonroundtrip:" + goName + ":" + f
 	}
-	if c01FirstDiff(b1, b2, "") != "" {
-		return fmt.Sprintf("Marshal(Unmarshal(Marshal v)) differs: %q vs %q", c01Short([]byte(c01RunesToString(b1))), c01Short([]byte(c01RunesToString(b2)))), "nonroundtrip:" + goName + ":bytes"
+	b2, err := xml.Marshal(fresh)
+	if err != nil || !bytes.Equal(b1, b2) {
+		return fmt.Sprintf("Marshal(Unmarshal(Marshal v)) differs: %q vs %q (err %v)", c01Short(b1), c01Short(b2), err), "nonroundtrip:" + goName + ":bytes"
 	}
 	// skeleton invariance under text replacement
 	raw, _ := json.Marshal(in)
 	r := rand.New(rand.NewSource(c01Hash(string(raw))))
-	sk := c01Skeleton([]byte(c01RunesToString(b1)))
+	sk := c01Skeleton(b1)
 	for k := 0; k < 2; k++ {
 		alt := c01Retext(in, r)
 		av, _ := c01Build(alt)
